@@ -23,6 +23,10 @@ def run(ctx):
     dsl.verify(ctx, repo, C.joint_registry(), "C03", [C.TJ + ".log_p", C.TJ + ".log_p_one", C.TJ + ".compute_both_log_p_and_log_p_one"], C.h_joint,
                expect_covers=C.JOINT_COVERS, concretise=_concretise)
     dsl.verify(ctx, repo, dsl.Registry(), "C03", "phyclone.data.pyclone.compute_outlier_prob", C.h_compute_outlier_prob, expect_covers=["p=0", "p>0"])
+    rdp = dsl.Registry()
+    rdp.generic_loops.add("phyclone.tree.utils._sub_compute_S")
+    dsl.verify(ctx, repo, rdp, "C03", ["phyclone.data.base.DataPoint.__init__", "phyclone.tree.utils._sub_compute_S"], C.h_datapoint_init, expect_covers=["datapoint.named", "datapoint.unnamed"])
+    ctx.trust("scipy.special.logsumexp(x, axis=1)[d] = log sum_k exp x[d, k] (library)")
     ctx.trust(*C.joint_registry().assumed)
     ctx.trust(*C.oprior_registry().assumed)
     ctx.trust("A-POW: c^-R := exp(-R log c); M-GEOM: sum_{i<R} c^-i = (1 - c^-R)/(1 - c^-1) (the normalised 1/1000-per-additional-top-level-clone penalty)",
